@@ -187,8 +187,21 @@ def run_one(mod, proof, ix, workdir):
         declared = set(getattr(mod, "assumed_contracts", {}).keys())
         replace = [r for r in proof.replace if r in em.funcs or (r in declared and _re.search(r"\b%s\(" % _re.escape(r), body_text))]
         out["unused_replacements"] = [r for r in proof.replace if r not in replace]
+        # a loop the contracts do not know (the code gained a loop): without a loop contract cbmc would unwind it for ever. It is unwound three
+        # times instead (an execution prefix from the contract's precondition, so any obligation failing there fails for real); the failing
+        # unwinding assertion itself means "not decided", never a violation (see run.py)
+        unwind = proof.unwind
+        if proof.loop_contracts and unwind is None and (proof.enforce or proof.replace):
+            cdict = dict(mod.contracts)
+            if proof.contracts:
+                cdict.update(proof.contracts)
+            uncovered = [fo.cname for fo in em.funcs.values() if fo.cname not in replace and
+                         fo.nloops > len(cdict.get(fo.cname, {}).get("loops", {}))]
+            if uncovered:
+                unwind = 3
+                out["loops_without_contract"] = uncovered
         res = P.prove(workdir, proof.name, text, entry, enforce=proof.enforce, replace=replace,
-                      loop_contracts=proof.loop_contracts, solver=proof.solver, unwind=proof.unwind,
+                      loop_contracts=proof.loop_contracts, solver=proof.solver, unwind=unwind,
                       timeout=proof.timeout, object_bits=proof.object_bits, mem_gb=proof.mem_gb,
                       unwindset=proof.unwindset, extra_checks=proof.check_flags)
         out["status"] = "ok"
